@@ -156,8 +156,22 @@ def replay_printer(rep):
     return False, {"mode": "generated formulas exported and read by the independent SMT-LIB reader: nothing found"}
 
 
+def replay_parser(rep):
+    """C08: scripts from the SMT-LIB grammar through the parser vs the independent reader"""
+    from native import bounded_smt
+    for seed in (int(rep.get("seed", 0)), 1, 2, 3):
+        for chk in (bounded_smt.import_check, bounded_smt.malformed_check):
+            r = chk("quick", seed)
+            vs = [v for v in r["violations"] if v["key"] not in ("definition-capture", "unbound-token-as-string")]
+            if vs:
+                return True, {"mode": "generated SMT-LIB scripts read by pySMT and by the independent reader", "failure": vs[0]}
+    return False, {"mode": "generated SMT-LIB scripts read by pySMT and by the independent reader: nothing found"}
+
+
 def dispatch(rep):
     kind = rep.get("kind")
+    if kind == "parser":
+        return replay_parser(rep)
     if kind == "printer":
         return replay_printer(rep)
     if kind == "optimizer":
